@@ -154,6 +154,13 @@ func run(c *fw.Ctx, idx int) {
 		} else {
 			m.Expire = time.Now().Add(time.Hour).UnixNano()
 		}
+		if (ms.Kind == "invalid" || ms.Kind == "nonnumeric") && r.Bool() {
+			// an older healthy sample followed by the unhealthy one: latest wins
+			old := *m
+			old.Valid = true
+			old.Value = fmt.Sprint(valueRange[r.Intn(len(valueRange))])
+			e.node.Monitor.LogMetric(ctx, &old)
+		}
 		if ms.Kind == "expired" && r.Bool() {
 			// an older valid sample followed by the expired one: latest wins
 			old := *m
